@@ -25,6 +25,7 @@ import (
 	"github.com/hyperledger/aries-framework-go/pkg/didcomm/transport"
 	"github.com/hyperledger/aries-framework-go/pkg/framework/aries"
 	"github.com/hyperledger/aries-framework-go/pkg/framework/context"
+	connstore "github.com/hyperledger/aries-framework-go/pkg/store/connection"
 	spilog "github.com/hyperledger/aries-framework-go/spi/log"
 	"github.com/hyperledger/aries-framework-go/spi/storage"
 
@@ -131,6 +132,8 @@ type packet struct {
 	To   string
 	Data []byte
 	Type string // short message name, peeked
+	// thread identifiers of the message as captured ("" = absent)
+	ID, Thid, Pthid string
 }
 
 type connOutbound struct{ w *connWorld }
@@ -572,15 +575,144 @@ func (w *connWorld) peek(p *packet) {
 	}
 
 	var m struct {
-		Type string `json:"@type"`
+		Type   string `json:"@type"`
+		ID     string `json:"@id"`
+		Thread struct {
+			Thid  string `json:"thid"`
+			Pthid string `json:"pthid"`
+		} `json:"~thread"`
 	}
 
 	_ = json.Unmarshal(env.Message, &m) //nolint:errcheck
+
+	p.ID, p.Thid, p.Pthid = m.ID, m.Thread.Thid, m.Thread.Pthid
 
 	p.Type = connShort[w.proto][m.Type]
 	if p.Type == "" {
 		p.Type = "?"
 	}
+}
+
+// connShapes: the ways a captured message is delivered with re-written thread identifiers (id, thid, pthid of the
+// captured message -> id, thid, pthid as delivered; "" = absent; F = an identifier nobody has seen).  Published
+// threading rule: thid names the thread; without thid the message's own id does.
+const nConnShapes = 7
+
+func connShape(k int, id, thid, pthid string) (string, string, string) {
+	const f = "c09-never-seen-id"
+
+	switch k {
+	case 1: // threaded on its parent thread
+		if pthid == "" {
+			return id, f, f
+		}
+
+		return id, pthid, pthid
+	case 2: // a never-seen thread that is also given as parent
+		return id, f, f
+	case 3: // a new id, thread decorator kept
+		return f, thid, pthid
+	case 4: // a never-seen thread, id kept
+		return id, f, pthid
+	case 5: // no thid: the thread is the message's own id
+		return id, "", pthid
+	case 6: // a new id threaded explicitly on the captured thread (or on its captured id)
+		if thid == "" {
+			return f, id, pthid
+		}
+
+		return f, thid, pthid
+	case 7: // id and thid swapped in meaning: the thread named by the parent, parent by the thread
+		return id, pthid, thid
+	}
+
+	return id, thid, pthid
+}
+
+// reshape re-writes the thread identifiers of a plaintext message.
+func reshape(msg []byte, id, thid, pthid string) ([]byte, error) {
+	var m map[string]interface{}
+	if err := json.Unmarshal(msg, &m); err != nil {
+		return nil, err
+	}
+
+	if id == "" {
+		delete(m, "@id")
+	} else {
+		m["@id"] = id
+	}
+
+	th := map[string]interface{}{}
+	if old, ok := m["~thread"].(map[string]interface{}); ok {
+		th = old
+	}
+
+	delete(th, "thid")
+	delete(th, "pthid")
+
+	if thid != "" {
+		th["thid"] = thid
+	}
+
+	if pthid != "" {
+		th["pthid"] = pthid
+	}
+
+	if len(th) > 0 {
+		m["~thread"] = th
+	} else {
+		delete(m, "~thread")
+	}
+
+	return json.Marshal(m)
+}
+
+// threadState reads the persisted state of the thread (namespace, thread id) the way the service finds it: through
+// the namespaced thread mapping of the protocol state store.
+func (a *connAgent) threadState(my bool, thid string) string {
+	if thid == "" {
+		return "null"
+	}
+
+	prefix := connstore.TheirNSPrefix
+	if my {
+		prefix = connstore.MyNSPrefix
+	}
+
+	key, err := connstore.CreateNamespaceKey(prefix, thid)
+	if err != nil {
+		return "null"
+	}
+
+	id, err := a.ps.Get(key)
+	if err != nil {
+		return "null"
+	}
+
+	b, err := a.ps.Get("conn_" + string(id))
+	if err != nil {
+		return "null"
+	}
+
+	var r struct{ State string }
+	if json.Unmarshal(b, &r) != nil || r.State == "" {
+		return "null"
+	}
+
+	return r.State
+}
+
+// honestThread is the thread id of the exchange the two agents run (the @id of the first captured request).
+func (w *connWorld) honestThread() string {
+	for _, p := range w.packets {
+		w.peek(p)
+
+		if p.Type == "request" {
+			return p.ID
+		}
+	}
+
+	return ""
 }
 
 // ConnOp is one operation of a connection-protocol history.
@@ -686,6 +818,47 @@ func (w *connWorld) apply(op Op) (o Obs, bad string) {
 		base := inboundBase()
 
 		env, err := a.inbound.prov.Packager().UnpackMessage(p.Data)
+
+		var (
+			shaped         bool
+			my             bool
+			specT, honestT string
+			hpre           string
+		)
+
+		if err == nil && op.Shape > 0 {
+			// the captured message with re-written thread identifiers; judged against the thread the PUBLISHED rule names
+			id, thid, pthid := connShape(op.Shape, p.ID, p.Thid, p.Pthid)
+
+			var nm []byte
+
+			if nm, err = reshape(env.Message, id, thid, pthid); err == nil {
+				env.Message = nm
+				shaped, my = true, connTabs[w.proto].ns[p.Type]
+				specT = thid
+
+				if specT == "" {
+					specT = id
+				}
+
+				honestT = w.honestThread()
+				hpre = a.threadState(a.index == 1, honestT)
+				o.Pre = a.threadState(my, specT)
+				o.WireID, o.WireTh, o.WirePth = id, thid, pthid
+			}
+		}
+
+		if shaped {
+			defer func() {
+				o.Post = a.threadState(my, specT)
+
+				// the thread of the honest exchange is another thread unless the message names it
+				if hpost := a.threadState(a.index == 1, honestT); hpost != hpre && !(specT == honestT && my == (a.index == 1)) {
+					o.Written = []string{honestT + ": " + hpre + " -> " + hpost}
+				}
+			}()
+		}
+
 		if err == nil {
 			a.arm(op.Fault)
 			err = a.inbound.prov.InboundMessageHandler()(env)
@@ -888,7 +1061,9 @@ func runConnCase(tr *hx.Trace, kind string, c *Case, withCoq bool) connState {
 
 			// a packet of a type outside the protocol's table has no counterpart in the model; a packet that does not
 			// exist (yet) is no operation at all: it is left out of the model's history
-			if name == "?" {
+			if name == "?" || op.Shape > 0 {
+				// re-written thread identifiers: direct oracle only (the machine of the connection protocols has one thread
+				// per agent)
 				skipCoq = true
 			}
 		}
@@ -908,7 +1083,11 @@ func runConnCase(tr *hx.Trace, kind string, c *Case, withCoq bool) connState {
 			}
 		}
 
-		classes = append(classes, op.Kind+":"+name+":"+op.Fault+":"+o.Res+":"+o.Pre+">"+join(o.Ann)+">"+o.Post)
+		if op.Shape > 0 {
+			dist = append(dist, fmt.Sprintf("%s:shape%d:%s:%s", c.Proto, op.Shape, name, o.Res))
+		}
+
+		classes = append(classes, op.Kind+":"+name+":"+op.Fault+fmt.Sprint(op.Shape)+":"+o.Res+":"+o.Pre+">"+join(o.Ann)+">"+o.Post)
 		dist = append(dist, c.Proto+":"+op.Kind+":"+o.Res)
 
 		if op.Fault != "" {
@@ -1004,6 +1183,17 @@ func exploreConn(tr *hx.Trace, proto string, depth, maxCases, maxFault int) {
 	frontier := []connNode{{ops: root.Ops, st: st}}
 	n := 1
 	nodes := []connNode{frontier[0]}
+
+	defer func() {
+		// every captured message from every reached state again in every shape of thread identifiers
+		for _, nd := range nodes {
+			for k := 0; k < nd.st.nPackets; k++ {
+				for sh := 1; sh <= nConnShapes; sh++ {
+					runConnCase(tr, "exhaustive-wire", &Case{Proto: proto, Ops: append(append([]Op{}, nd.ops...), Op{Kind: "deliver", Ev: k, Shape: sh})}, false)
+				}
+			}
+		}
+	}()
 
 	defer func() {
 		// every op from every reached state again with every storage fault; the faulty op is followed by nothing
